@@ -175,6 +175,13 @@ def write_evidence(ctx, violations):
         ev['notes'] = ctx.notes
     if ctx.inconclusive:
         ev['inconclusive'] = ctx.inconclusive
+    if REPO != '/repo':
+        # a development run against a scratch worktree (VERIF_REPO): evidence describes /repo only, keep it out of evidence/
+        edir = os.path.join(VERIF, 'replays')
+        os.makedirs(edir, exist_ok=True)
+        with open(os.path.join(edir, 'evidence-%s-%s.json' % (ctx.pid, re.sub(r'[^A-Za-z0-9]', '_', REPO))), 'w') as f:
+            json.dump(ev, f, indent=1, sort_keys=True)
+        return
     os.makedirs(os.path.join(VERIF, 'evidence'), exist_ok=True)
     tmp = os.path.join(VERIF, 'evidence', ctx.pid + '.json.tmp')
     with open(tmp, 'w') as f:
